@@ -86,7 +86,7 @@ def generate(tier, seed):
     n = 600 if tier == "quick" else 100000
     per = 15
     cases = [{"kind": "req", "k": k, "n": per} for k in range(n // per)]
-    for k in range(10 if tier == "quick" else 300):
+    for k in range(30 if tier == "quick" else 1000):
         cases.append({"kind": "all", "k": k})
     return cases
 
@@ -284,10 +284,16 @@ def run_all(case, ctx, res):
     try:
         recipe = trees.gen_recipe(rng, n_files=rng.randint(3, 8), defects=["missing-text"] * rng.randint(1, 3), global_mode=rng.choice(["none", "toml"]))
         trees.build(recipe, root, ctx.state["styles"])
+        # files using deprecated, '+', exception and unknown identifiers whose texts are missing as well
+        spdx = trees.spdx_lists()["all"]
+        extra_ids = rng.sample(["GPL-2.0", "eCos-2.0+", "AGPL-3.0", "LGPL-2.1+", "Classpath-exception-2.0", "Not-A-Licence-1.0", "BSD-2-Clause-FreeBSD"],
+                               rng.randint(0, 3))
+        for j, i in enumerate(extra_ids):
+            (root / f"extra{j}.py").write_text(f"# SPDX-FileCopyrightText: 2020 E\n# SPDX-License-Identifier: {i if 'exception' not in i else 'MIT WITH ' + i}\n")
         r0 = run_cli(["--no-multiprocessing", "--root", str(root), "lint", "--json"], cwd=str(root))
         missing = set(json.loads(r0.stdout)["non_compliant"]["missing_licenses"])
-        spdx = trees.spdx_lists()["all"]
-        stub.behaviour = {f"{i}.txt": "200" for i in missing if i in spdx}
+        served = {i for i in missing if (i[:-1] if i.endswith("+") else i) in spdx}
+        stub.behaviour = {f"{i[:-1] if i.endswith('+') else i}.txt": "200" for i in served}
         stub.log.clear()
         before = snapshot(root)
         r = run_cli(["--no-multiprocessing", "--root", str(root), "download", "--all"], cwd=str(root))
@@ -305,6 +311,14 @@ def run_all(case, ctx, res):
                 return
         r2 = run_cli(["--no-multiprocessing", "--root", str(root), "lint", "--json"], cwd=str(root))
         still = set(json.loads(r2.stdout)["non_compliant"]["missing_licenses"])
+        unobtainable = {i for i in missing if i not in served and not i.startswith("LicenseRef-")}
+        if still - unobtainable:
+            res.violation("obtainable-licence-not-supplied", f"download --all (exit {r.exit_code}) left {sorted(still - unobtainable)} missing although the "
+                          f"server has them (were missing: {sorted(missing)})")
+            return
+        if (r.exit_code == 0) != (not unobtainable):
+            res.violation("exit-status", f"download --all exit {r.exit_code}; identifiers that cannot be obtained: {sorted(unobtainable)}", **r.brief())
+            return
         if r.exit_code == 0 and still:
             res.violation("missing-after-download-all", f"download --all succeeded but lint still reports missing {sorted(still)} (were {sorted(missing)})")
             return
